@@ -143,17 +143,17 @@ macro_rules! acc_given {
     };
 }
 
-//@ obl: id=U7.taiko.genstate.acc_300_100 harness=u7_taiko_genstate_acc_300_100 props=C12,C05 tier=quick kind=proof
+//@ obl: id=U7.taiko.genstate.acc_300_100 harness=u7_taiko_genstate_acc_300_100 props=C12 tier=quick kind=proof
 //@ fns: TaikoPerformance::generate_state
 //@ bound: loop-free arm; accuracy any value in [0,1] (NaN excluded: accuracy(NaN) is outside the contract)
 //@ clause: taiko generate_state with accuracy, n300 and n100 given: C12 clauses (1)-(6)
 acc_given!(u7_taiko_genstate_acc_300_100, true, true);
-//@ obl: id=U7.taiko.genstate.acc_300 harness=u7_taiko_genstate_acc_300 props=C12,C05 tier=quick kind=proof
+//@ obl: id=U7.taiko.genstate.acc_300 harness=u7_taiko_genstate_acc_300 props=C12 tier=quick kind=proof
 //@ fns: TaikoPerformance::generate_state
 //@ bound: loop-free arm; accuracy any value in [0,1]
 //@ clause: taiko generate_state with accuracy and n300 given: C12 clauses (1)-(6)
 acc_given!(u7_taiko_genstate_acc_300, true, false);
-//@ obl: id=U7.taiko.genstate.acc_100 harness=u7_taiko_genstate_acc_100 props=C12,C05 tier=quick kind=proof
+//@ obl: id=U7.taiko.genstate.acc_100 harness=u7_taiko_genstate_acc_100 props=C12 tier=quick kind=proof
 //@ fns: TaikoPerformance::generate_state
 //@ bound: loop-free arm; accuracy any value in [0,1]
 //@ clause: taiko generate_state with accuracy and n100 given: C12 clauses (1)-(6)
